@@ -596,14 +596,14 @@ func TestProp(t *testing.T) {
 	evid.Rapid(r, t, "commands",
 		"rapid: command uniform over the 40 commands of the four packages (36 payload types), every field drawn inside its specified width (maximum 20%, zero 10%, top bit 10%, else uniform bits); McGroupStatusAns with as many items as mask bits; TimeToStart present iff no error flag; DevUpgradeImageAns with version obtained by decoding 5 generated bytes; DataFragment payload 0..239 bytes. "+
 			oracle+"Non-trivial: a field of >= 2 bits holds its maximum.",
-		90000, 4500000, genCmd, checkCmd)
+		200000, 4500000, genCmd, checkCmd)
 
 	evid.Rapid(r, t, "sequences",
 		"rapid: package x direction x 1..6 (90% >= 2) commands of that package and direction with in-range field values as in 'commands' (DataFragment only in last position), encoded with Commands.MarshalBinary. Oracle: no panic, no error, total length = sum of the specified sizes, Commands.UnmarshalBinary(direction) gives the same CIDs and field-by-field equal payloads. "+
 			"A decode error is attributed to known finding K5 iff it appears exactly when a command is appended directly behind a DevVersionReq to a prefix that round-trips (the walk restarts at the appended command, so every command and every other adjacency of the sequence is still checked). Non-trivial: >= 2 commands.",
-		60000, 3500000, genSeq, checkSeq)
+		150000, 3500000, genSeq, checkSeq)
 
 	evid.Rapid(r, t, "multicast-keys",
 		"rapid: uniform 128-bit key and 32-bit McAddr (1/16 edge addresses); GetMcRootKeyForGenAppKey / ForAppKey, GetMcKEKey, GetMcAppSKey, GetMcNetSKey against single-block AES of the TS005 input blocks (internal/ref, crypto/aes): 0x00|pad, 0x20|pad, 0x00|pad, 0x01|McAddr LE|pad, 0x02|McAddr LE|pad; then a history of 0..3 further addresses (and the first again) derived with the SAME key, each compared with the model (a cache that forgets part of the input shows here). Non-trivial: the address differs from its byte-reversed reading.",
-		25000, 2000000, genKeys, checkKeys)
+		60000, 2000000, genKeys, checkKeys)
 }
